@@ -95,7 +95,7 @@ class LifeRun:
         self.log(ev="Call", op=op, a={}, clk=clk_floor())
         res, exc = None, None
         try:
-            res = await getattr(api, op)()
+            res = await self._b(getattr(api, op)())
         except Exception as x:  # noqa: BLE001
             exc = x
         if self.mode == "loopback" and self.dev_conns and self.dev_conns[-1]["sent_eof"]:
@@ -164,9 +164,9 @@ class LifeRun:
                             await asyncio.sleep(0)
                     try:
                         if a in ("connect", "refused", "refused-while-connected"):
-                            await api.connect()
+                            await self._b(api.connect())
                         else:
-                            await api.__aenter__()
+                            await self._b(api.__aenter__())
                         self.log(ev="Connect", ok=True, exc="", flag=bool(api.connected))
                     except OSError as x:
                         self.log(ev="Connect", ok=False, exc=type(x).__name__, flag=bool(api.connected))
@@ -184,15 +184,15 @@ class LifeRun:
                     raised = False
                     try:
                         if a == "disconnect":
-                            await api.disconnect()
+                            await self._b(api.disconnect())
                         elif a == "leave":
-                            await api.__aexit__(None, None, None)
+                            await self._b(api.__aexit__(None, None, None))
                         else:
                             cls_ = BODY_EXC[self.rng.randrange(len(BODY_EXC))] if self.scn.get("vary_exc", True) else BodyError
                             try:
                                 raise cls_("body failed")
                             except BaseException as be:  # noqa: BLE001 - handed to __aexit__ exactly as `async with` would
-                                await api.__aexit__(type(be), be, be.__traceback__)
+                                await self._b(api.__aexit__(type(be), be, be.__traceback__))
                     except Exception:  # noqa: BLE001
                         raised = True
                     eof = await self._eof_seen(n0)
@@ -200,7 +200,7 @@ class LifeRun:
                 self.log(ev="Flag", flag=bool(api.connected))
         finally:
             try:
-                await api.disconnect()
+                await self._b(api.disconnect())
             except Exception:  # noqa: BLE001
                 pass
             if server is not None:
@@ -214,6 +214,15 @@ class LifeRun:
                     await asyncio.wait_for(server.wait_closed(), 2.0)
                 except asyncio.TimeoutError:
                     pass
+
+    async def _b(self, coro):
+        """Await a coroutine of the library, but not for ever (a week of virtual time / a minute of real time over loopback)."""
+        if self.mode == "virtual":
+            return await vnet.bounded(coro)
+        try:
+            return await asyncio.wait_for(coro, 60)
+        except asyncio.TimeoutError:
+            raise vnet.LibraryNeverReturned("no return within a minute") from None
 
     def go(self) -> list[dict]:
         if self.mode == "virtual":
